@@ -1,5 +1,5 @@
 // Findings (C14 "composite ... paging via `after` enumerates every bucket exactly once; independent of segment partitioning and merge
-// order"; candidate defects D1..D6 found by worker w16d while writing the contracts of units composite_after_key /
+// order"; candidate defects D1..D7 found by worker w16d while writing the contracts of units composite_after_key /
 // composite_calendar_week for src/aggregation/bucket/composite/{accessors,collector,calendar_interval}.rs and
 // IntermediateCompositeBucketResult::merge_fruits in src/aggregation/intermediate_agg_result.rs).
 //
@@ -32,16 +32,22 @@
 // D6  calendar_interval week, timestamps 1677-09-21 .. 1677-09-26 (the first days of the i64 nanosecond range, before the first
 //     representable Monday): `monday_days_since_epoch * NS_IN_DAY` overflows: panic in debug builds, wrapped (far future) bucket in
 //     release builds.  (Kani witness: unit composite_calendar_week, harness week_bucket_full_range.)
+// D7  histogram / date_histogram source with `order: desc` and `missing_bucket: true` (missing_order default, i.e. null LAST for
+//     desc): precompute_missing_after_key(true, Default, Desc) returns AfterLast, whose `lt(v)` is false for every value, so the page
+//     requested with the after key `null` (the last bucket) starts again at the first bucket: pages cycle 5, 0, null, 5, 0, null, ...
+//     The table row should be the one of (true, Last, Desc).  (Kani witness: unit composite_after_key, harness
+//     afterkey_missing_table_full.)  The terms source cuts by after_key_accessor_idx and is right (d7_control_terms_...).
 //
 // Ordinary integration test, public API only: copy into tests/ of a copy of the tree,
 //   cargo test --offline --test demo_composite_paging -- --nocapture --test-threads 1
-// Recorded 2026-09-26 on /repo: 8 passed (d0 control: 3 segments x 2 sources x page sizes 1..7 == one page == direct count; all
-// *_control_*), 11 FAILED: d1_histogram_missing_last_first_page (left [null]), d1_histogram_missing_last_desc (left [null]),
+// Recorded 2026-09-26 on /repo: 9 passed (d0 control: 3 segments x 2 sources x page sizes 1..7 == one page == direct count; all
+// *_control_*), 13 FAILED: d1_histogram_missing_last_first_page (left [null]), d1_histogram_missing_last_desc (left [null]),
 // d1_histogram_missing_last_without_missing_bucket (left []), d1_date_histogram_missing_last_first_page (left [null]),
 // d2_fixed_interval_before_epoch (left [(0.0, 2)]), d3_paging_interval_0_7_asc / d3_paging_interval_0_1_desc /
 // d3_paging_interval_0_1_asc_negative (10 identical pages, no end), d4_min_doc_count_0_segment_order (8 of 16 builds lost the
 // buckets), d5_desc_u64_max_after_a_date_key / d5_desc_i64_max_after_a_date_key (bucket missing from the pages),
-// d6_calendar_week_near_i64_min (panic: attempt to multiply with overflow, calendar_interval.rs:36).
+// d6_calendar_week_near_i64_min (panic: attempt to multiply with overflow, calendar_interval.rs:36),
+// d7_histogram_desc_missing_bucket_paging_ends (pages cycle, no empty page).
 use serde_json::{json, Value};
 use tantivy::aggregation::agg_req::Aggregations;
 use tantivy::aggregation::AggregationCollector;
@@ -422,4 +428,33 @@ fn d0_control_three_segments_two_sources() {
         }
         assert_eq!(out, want, "page size {size}");
     }
+}
+
+// ------------------------------------------------------------------------------------------------
+// D7: histogram / date_histogram source, `order: desc`, `missing_bucket: true` (missing_order default = last for desc):
+// the page after the null bucket starts again from the first bucket
+#[test]
+fn d7_control_histogram_asc_missing_bucket() {
+    let index = value_index();
+    let sources = json!([{ "h": { "histogram": { "field": "value", "interval": 5.0, "missing_bucket": true } } }]);
+    paging_equals_one_page(&index, &sources, 3);
+}
+
+#[test]
+fn d7_histogram_desc_missing_bucket_paging_ends() {
+    let index = value_index();
+    let sources = json!([{ "h": { "histogram": { "field": "value", "interval": 5.0, "order": "desc", "missing_bucket": true } } }]);
+    let one = composite(&index, &sources, 10, None);
+    println!("one page: {one}");
+    assert_eq!(keys(one["buckets"].as_array().unwrap(), "h"), vec![json!(5.0), json!(0.0), json!(null)]);
+    let (paged, finished) = all_pages(&index, &sources, 1, 10);
+    assert!(finished, "paging with size 1 did not reach an empty page within 10 pages: {:?}", keys(&paged, "h"));
+    assert_eq!(&paged, one["buckets"].as_array().unwrap());
+}
+
+#[test]
+fn d7_control_terms_desc_missing_bucket_paging_ends() {
+    let index = value_index();
+    let sources = json!([{ "h": { "terms": { "field": "value", "order": "desc", "missing_bucket": true } } }]);
+    paging_equals_one_page(&index, &sources, 3);
 }
